@@ -112,10 +112,23 @@ def codec_part(spec, acc):
             # a value (or the message type) that contains the field separator cannot be represented: refused, or at least never
             # written out as a frame an independent parser rejects
             sv = rnd.choice(["a\x01b", "x\x0110=000\x01", "\x01", "tail\x01", "\x0135=8", "v\x019=5"])
-            where = rnd.choice(["plain", "plain", "group", "msgtype"])
+            where = rnd.choice(["plain", "plain", "group", "msgtype", "data", "data"])
             try:
                 if where == "plain":
                     bad = FIXMessage("D", {11: "soh", rnd.choice([58, 1, 55]): sv})
+                elif where == "data":
+                    # a FIX data field with its Length tag present and numerically right, but not directly in front of it (the pair is
+                    # only parseable when adjacent): still a frame no parser can take apart
+                    dt, lt = rnd.choice([(96, 95), (213, 212), (89, 93), (355, 354)])
+                    order = rnd.choice(["data-first", "tag-between"])
+                    bad = FIXMessage("D", {11: "soh"})
+                    if order == "data-first":
+                        bad[dt] = sv
+                        bad[lt] = len(sv)
+                    else:
+                        bad[lt] = len(sv)
+                        bad[58] = "between"
+                        bad[dt] = sv
                 elif where == "group":
                     bad = FIXMessage("D", {11: "soh"})
                     bad.set_group(453, [{448: "p1", 447: "D"}, {448: sv, 447: "D"}])
